@@ -1,11 +1,13 @@
 pub mod common;
 pub mod worlds;
+pub mod c01;
 pub mod c02;
 pub mod c03;
 pub mod c04;
 pub mod c05;
 pub mod c06;
 pub mod c07;
+pub mod c13;
 pub mod c14;
 pub mod c15;
 pub mod c17;
@@ -16,5 +18,5 @@ pub mod c20;
 use crate::framework::CheckSpec;
 
 pub fn all_specs() -> Vec<CheckSpec> {
-  vec![c02::spec(), c03::spec(), c04::spec(), c05::spec(), c06::spec(), c07::spec(), c14::spec(), c15::spec(), c17::spec(), c18::spec(), c19::spec(), c20::spec()]
+  vec![c01::spec(), c02::spec(), c03::spec(), c04::spec(), c05::spec(), c06::spec(), c07::spec(), c13::spec(), c14::spec(), c15::spec(), c17::spec(), c18::spec(), c19::spec(), c20::spec()]
 }
